@@ -144,7 +144,7 @@ pub fn verif_chars(s: &str) -> (r: Vec<char>)
                     && seg_ok(p, t, ap as int, pi as int, ast_ti as int) && ti - ast_ti == pi - ap,
             },
         decreases t.len() - (match after_ast { None => ti, Some(ap) => ast_ti }), p.len() - pi
-//@before ~after_ast = Some\(pi \+ 1\);
+//@after ~if pi < pat\.len\(\) && pat\[pi\] == '\*' \{
             proof {
                 match after_ast {
                     None => { },
@@ -152,7 +152,7 @@ pub fn verif_chars(s: &str) -> (r: Vec<char>)
                 }
                 assert(seg_ok(p, t, pi + 1, pi + 1, ti as int));
             }
-//@before ~pi \+= 1;$ #2
+//@after ~else if pi < pat\.len\(\) && \(pat\[pi\] == '\?' \|\| pat\[pi\] == txt\[ti\]\) \{
             proof {
                 match after_ast {
                     None => { lemma_g_unfold(p, t, pi as int, ti as int); },
@@ -163,7 +163,7 @@ pub fn verif_chars(s: &str) -> (r: Vec<char>)
                     },
                 }
             }
-//@before ~ast_ti \+= 1;
+//@after ~else if let Some\(ap\) = after_ast \{
             proof {
                 lemma_g_unfold(p, t, pi as int, ti as int);
                 assert(!g(p, t, pi as int, ti as int));
